@@ -509,6 +509,23 @@ def prop_inline_window(r, S, pid, f):
     return ([A_node(pid, x[0])], {}) if x else None
 
 
+def _reads_of(e, out=None):
+    out = out if out is not None else []
+    if isinstance(e, LoopIR.Read):
+        out.append((None, e.name))
+        for i in e.idx:
+            _reads_of(i, out)
+    elif isinstance(e, LoopIR.BinOp):
+        _reads_of(e.lhs, out)
+        _reads_of(e.rhs, out)
+    elif isinstance(e, LoopIR.USub):
+        _reads_of(e.arg, out)
+    elif isinstance(e, LoopIR.Extern):
+        for a in e.args:
+            _reads_of(a, out)
+    return out
+
+
 def _buffers_in(stmts):
     """[(name, [idx expr strings])] of buffer accesses in a list of stmts."""
     out = []
@@ -790,6 +807,8 @@ class Session:
         self.known_hits = {}
         self.other_props = {}
         self.all_viols = []
+        self.cache_seen = {}
+        self.cur_kw = {}
 
     # -- environment ---------------------------------------------------- #
 
@@ -920,6 +939,14 @@ class Session:
     # -- purity ---------------------------------------------------------- #
 
     def check_pure(self, when, op, with_str=False):
+        from .oracles.fingerprint import cache_snapshot
+
+        for cn, pname in cache_snapshot(self.cache_seen):
+            self.violate(
+                "C07", "analysis-cache-entry-mutated",
+                f"cached analysis of sub-procedure '{pname}' in {cn} changed {when} {op}; the entry is shared with every later analysis",
+                op, {"cache": cn},
+            )
         for pid, (fp, st) in self.created.items():
             p = self.procs[pid]
             self.probes.hit("pure_checked")
@@ -950,6 +977,7 @@ class Session:
 
         name = rec["op"]
         pid = rec["on"]
+        self.cur_rec = rec
         if pid not in self.procs:
             self.probes.hit("op_skipped_missing_proc")
             return
@@ -965,6 +993,7 @@ class Session:
             self.probes.hit("op_skipped_unresolvable_arg")
             return
         kw = dict(rec.get("kw") or {})
+        self.cur_kw = kw
         call = lambda: op(p, *[list(a) if isinstance(a, list) else a for a in args], **kw)  # noqa: E731
         fault = rec.get("fault")
         unsafe = name in SEM_EXCLUDED_OPS or any(k.startswith("unsafe") and v for k, v in kw.items())
@@ -1036,11 +1065,69 @@ class Session:
             extra = None
             if name == "replace":
                 extra = {"pred": self.replace_pred(pid_in, pid_out)}
+            elif name == "resize_dim":
+                extra = {"pred": "fold" if self.cur_kw.get("fold") else ""}
+            elif name in ("fission", "autofission"):
+                extra = {"pred": self.fission_pred(pid_in)}
             if v["sig"] == "unbound-use":
                 from .oracles.validator import binder_kind
 
                 extra = dict(extra or {}, binder=binder_kind(self.procs[pid_in]._loopir_proc, v["detail"].split(" ")[0]))
             self.violate(prop, v["sig"], f"after {name}{tag}: {v['detail']}", name + tag, extra)
+
+    def fission_pred(self, pid_in):
+        """Is a loop-invariant location (scalar / constant index) ASSIGNED before
+        the fission point and accessed after it?  (The recorded fission defect.)"""
+        try:
+            rec = self.cur_rec
+            g = rec["args"][0]
+            src = self.procs[g["p"]]._loopir_proc
+            path = [(a, i) for a, i in g["path"]]
+            node = src
+            for a, i in path[:-1]:
+                node = getattr(node, a)
+                if i is not None:
+                    node = node[i]
+            attr, idx = path[-1]
+            stmts = getattr(node, attr)
+            cut = idx + 1 if g.get("after") else idx
+            first, second = stmts[:cut], stmts[cut:]
+            inv = set()
+
+            def scan(ss):
+                for st in ss:
+                    if isinstance(st, LoopIR.Assign) and all(isinstance(e, LoopIR.Const) for e in st.idx):
+                        inv.add(st.name)
+                    elif isinstance(st, LoopIR.If):
+                        scan(st.body)
+                        scan(st.orelse)
+                    elif isinstance(st, LoopIR.For):
+                        scan(st.body)
+
+            scan(first)
+            touched = {sym for _, _, sym in _buffers_in(second)}
+            for st in second:
+                if isinstance(st, (LoopIR.Assign, LoopIR.Reduce)):
+                    touched.add(st.name)
+            # scalar accesses have no index list and are not reported by _buffers_in
+            def scal(ss):
+                for st in ss:
+                    if isinstance(st, (LoopIR.Assign, LoopIR.Reduce)):
+                        touched.add(st.name)
+                        for _p, e in _reads_of(st.rhs):
+                            touched.add(e)
+                    elif isinstance(st, LoopIR.If):
+                        scal(st.body)
+                        scal(st.orelse)
+                    elif isinstance(st, LoopIR.For):
+                        scal(st.body)
+
+            scal(second)
+            if inv & touched:
+                return "loop-invariant-assign-carried"
+        except Exception:
+            pass
+        return ""
 
     def replace_pred(self, pid_in, pid_out):
         """Structural predicate used to keep the known-finding key for replace
